@@ -5,6 +5,7 @@ import (
 	"fmt"
 	"hash/fnv"
 	"os"
+	"path"
 	"sort"
 	"strings"
 	"time"
@@ -153,9 +154,10 @@ type seqRun struct {
 	resynced                                                           int
 	evicted                                                            int
 	prevLive                                                           map[uint64]string
-	leftEarly                                                          map[uint64]bool // handle values that left the table although it was not full and nothing was unexported
-	curFH                                                              []byte          // handle used by the current operation
-	aliasMut                                                           bool            // a mutating request went through a handle whose path now traverses a symbolic link
+	leftEarly                                                          map[uint64]bool   // handle values that left the table although it was not full and nothing was unexported
+	curFH                                                              []byte            // handle used by the current operation
+	aliasMut                                                           bool              // a mutating request went through a handle whose path now traverses a symbolic link
+	lastFor                                                            map[string]string // path -> handle value most recently issued for it (C05)
 	target                                                             string
 	nameInvalid                                                        bool
 	badName                                                            string
@@ -230,6 +232,19 @@ func (r *seqRun) addHandle(fh []byte, p string) {
 	}
 	r.handles = append(r.handles, handleRef{append([]byte(nil), fh...), p, id, r.model.gen[p]})
 	key := string(fh)
+	if (r.sc.Kind == "C05" || r.sc.Kind == "C06") && len(fh) == 8 && !r.loose {
+		// "while a handle is live, every reissue for the same path returns the same handle value"
+		if r.lastFor == nil {
+			r.lastFor = map[string]string{}
+		}
+		if prev, ok := r.lastFor[p]; ok && prev != key {
+			live := absnfs.VerifHandles(absnfs.VerifFileMap(r.w.NFS))
+			if lp, isLive := live[binary.BigEndian.Uint64([]byte(prev))]; isLive && path.Clean(lp) == p {
+				r.vio("C05.two-live-values-for-one-path", "", "handle %x was issued for %s although the value %x issued for it earlier is still live in the table (denoting %q)", fh, p, []byte(prev), lp)
+			}
+		}
+		r.lastFor[p] = key
+	}
 	if old, ok := r.ghost[key]; ok {
 		if old != p {
 			// the same handle value issued for a different path: the enabling condition of a C06
@@ -1257,6 +1272,9 @@ func (r *seqRun) probeHandle(fh []byte, p string) {
 		return
 	}
 	r.o.Checks++
+	if res.Status != 0 && res.Status != nfsclient.NFS3ERR_STALE && res.Status != nfsclient.NFS3ERR_BADHANDLE && r.faulted() {
+		return // the probe's own lstat was failed by the fault plan: the handle resolved, the backend did not answer
+	}
 	if res.Status != 0 {
 		r.vio("C05.dead-on-issue", "", "handle %x just issued for %s fails GETATTR with %s", fh, p, nfsclient.NFSStatName(res.Status))
 		return
